@@ -65,9 +65,11 @@ SetPath(v, path, nv) ==
 (* Pattern matching: Match(pat, v) = [m |-> BOOLEAN, bs |-> bindings]      *)
 (* bindings: sequence of <<name, value>>                                   *)
 (***************************************************************************)
+\* "alit" / "abool" are constants produced by an `asm` block (`asm(r: 5u64) { r: u64 }`): the same value as
+\* the literal, but opaque to the IR optimizer and visible only to the asm-level constant propagation.
 LitVal(e) ==
-    CASE e.k = "lit" -> IntV(e.t, FromBE(e.b))
-      [] e.k = "bool" -> BoolV(e.v)
+    CASE e.k = "lit" \/ e.k = "alit" -> IntV(e.t, FromBE(e.b))
+      [] e.k = "bool" \/ e.k = "abool" -> BoolV(e.v)
       [] e.k = "unit" -> Unit
 
 RECURSIVE Match(_, _), MatchSeq(_, _, _), MatchOr(_, _, _)
@@ -121,7 +123,7 @@ EvalSeq(P, es, i, acc, env, logs) ==
          IF r.sig # "ok" THEN r ELSE EvalSeq(P, es, i + 1, Append(acc, r.v), r.env, r.logs)
 
 Eval(P, e, env, logs) ==
-    CASE e.k = "lit" \/ e.k = "bool" \/ e.k = "unit" -> OkR(LitVal(e), env, logs)
+    CASE e.k = "lit" \/ e.k = "bool" \/ e.k = "unit" \/ e.k = "alit" \/ e.k = "abool" -> OkR(LitVal(e), env, logs)
       [] e.k = "var" -> OkR(env[e.x], env, logs)
       [] e.k = "un" ->
             LET r == Eval(P, e.e, env, logs) IN
